@@ -87,7 +87,13 @@ def _div(a, b):
     return core.LitFloat(a / b, core.Fraction(a, b))
 
 
+def _is_fm(v):
+    return type(v).__module__ == 'vsym.fmodel'
+
+
 def _fmt(v, conv, spec):
+    if _is_fm(v) and TEXT_HOOK[0] is not None:
+        return TEXT_HOOK[0]('fmt', v, conv, spec)
     if isinstance(v, (core.SymReal, mathx.SymText)):
         h = TEXT_HOOK[0]
         if h is not None:
@@ -123,6 +129,8 @@ def _call(o, m, *a, **k):
         r = h(o, m, a, k)
         if r is not NotImplemented:
             return r
+    if _is_fm(o) and TEXT_HOOK[0] is not None:
+        return TEXT_HOOK[0]('call', o, m, a, k)
     if isinstance(o, (mathx.SymText, mathx.SymConcat)) or any(isinstance(x, (mathx.SymText, mathx.SymConcat)) for x in a):
         t = TEXT_HOOK[0]
         if t is not None:
@@ -244,17 +252,23 @@ def install(root=None):
     _installed[0] = True
 
 
-def load_file(path, modname):
-    """Instrumented load of a stand-alone script (e.g. Standalone/mga2gda.py) without running its __main__ block."""
+def load_file(path, modname, shadows=None):
+    """Instrumented load of a stand-alone script (e.g. Standalone/mga2gda.py) without running its __main__ block.
+    `shadows`: builtin shadows to install instead of the R-model ones (the F-model passes its own)."""
     with open(path, 'rb') as f:
         data = f.read()
     SOURCES[modname] = (path, hashlib.sha256(data).hexdigest())
     mod = types.ModuleType(modname)
     mod.__file__ = path
     mod.__dict__.update(HOOKS)
-    mod.__dict__.update(mathx.BUILTIN_SHADOWS)
+    mod.__dict__.update(mathx.BUILTIN_SHADOWS if shadows is None else shadows)
     exec(compile_instrumented(data.decode('utf8'), path, modname), mod.__dict__)
-    patch_globals(mod.__dict__)
+    if shadows is None:
+        patch_globals(mod.__dict__)
+    else:
+        for k, v in shadows.items():
+            if k in mod.__dict__ or k in ('float', 'int', 'str', 'type'):
+                mod.__dict__[k] = v
     return mod
 
 
